@@ -359,7 +359,39 @@ impl Gen {
         }
     }
     fn top_task(&mut self, budget: i64, nvars: usize) -> Task { let mut b = budget; self.task(&mut b, nvars, &mut vec![], 0) }
+    /// a command that aborts itself (through its own retained handle) at some point of one of its
+    /// tasks, with siblings parked on requests / streams / join handles, optionally wrapped
+    fn self_abort_cmd(&mut self, nvars: usize) -> Cmd {
+        self.next_name += 1; let n = self.next_name; self.names.push(n);
+        let ev = |g: &mut Gen| 100 + g.rng.below(6);
+        // the aborting task: [emit?] [await a request?] abort [emit / request afterwards?]
+        let mut after: Task = match self.rng.below(4) { 0 => Task::Ret, 1 => Task::Emit(ev(self), Expr::K(1), Box::new(Task::Ret)),
+            2 => Task::Req(self.tag(), Expr::K(2), 0, Box::new(Task::Ret)), _ => Task::Notify(self.tag(), Expr::K(0), Box::new(Task::Ret)) };
+        after = Task::AbortC(n, Box::new(after));
+        let aborter = match self.rng.below(4) {
+            0 => after,
+            1 => Task::Req(self.tag(), self.expr(nvars), 0, Box::new(after)),
+            2 => Task::Emit(ev(self), Expr::K(0), Box::new(Task::Req(self.tag(), Expr::K(1), 0, Box::new(after)))),
+            _ => { let t = self.tag(); Task::ForEach(t, Expr::K(0), 0, Box::new(after), Box::new(Task::Ret)) }
+        };
+        let mut sibs: Vec<Task> = vec![];
+        for _ in 0..self.rng.below(3) {
+            sibs.push(match self.rng.below(3) {
+                0 => { let t = self.tag(); let e = ev(self); Task::ForEach(t, Expr::K(0), 0, Box::new(Task::Emit(e, Expr::V(0), Box::new(Task::Ret))), Box::new(Task::Ret)) }
+                1 => { let t = self.tag(); let e = ev(self); Task::Req(t, Expr::K(3), 0, Box::new(Task::Emit(e, Expr::V(0), Box::new(Task::Ret)))) }
+                _ => { let b = 2 + self.rng.below(4) as i64; self.top_task(b, nvars) }
+            });
+        }
+        let (main, extra) = if self.rng.coin(1, 2) || sibs.is_empty() { (aborter, sibs) } else { let m = sibs.remove(0); sibs.push(aborter); (m, sibs) };
+        let mut c = Cmd::Abortable(n, Box::new(Cmd::New(main, extra)));
+        for _ in 0..self.rng.below(3) {
+            c = match self.rng.below(5) { 0 => Cmd::IdEff(Box::new(c)), 1 => Cmd::All(vec![c]), 2 => Cmd::Then(Box::new(c), Box::new(Cmd::New(Task::Emit(ev(self), Expr::K(2), Box::new(Task::Ret)), vec![]))),
+                3 => Cmd::MapEv(1 + self.rng.below(2), Box::new(c)), _ => Cmd::And(Box::new(Cmd::New(Task::Ret, vec![])), Box::new(c)) };
+        }
+        c
+    }
     fn cmd(&mut self, depth: u32, nvars: usize) -> Cmd {
+        if !self.legacy && self.rng.coin(1, 14) { return self.self_abort_cmd(nvars); }
         let r = if depth == 0 { self.rng.below(40) } else { self.rng.below(100) };
         match r {
             0..=39 => {
